@@ -68,6 +68,21 @@ Batch ==
             /\ A' = AWrite(A, es)
             /\ Log([op |-> "write", items |-> <<i1, i2>>])
 
+\* two writers racing: seqnos s and s+1 are handed out in this order, the second writer's
+\* insert reaches the memtable first, both are published together.  The memtable is a set,
+\* so the effect is that of two writes; the code's cached per-memtable maximum must not
+\* depend on the arrival order (C18)
+WritePair ==
+    /\ "pair" \in Ops /\ st.seq + 1 < MaxSeq
+    /\ \E k1 \in Keys \ (WeakKeys \cup OnceKeys), k2 \in Keys \ (WeakKeys \cup OnceKeys), t1 \in {"V", "T"} :
+         LET i1 == [k |-> k1, t |-> t1, v |-> IF t1 = "V" THEN ValAt(st.seq) ELSE NoVal]
+             i2 == [k |-> k2, t |-> "V", v |-> ValAt(st.seq + 1)]
+             e1 == [k |-> k1, s |-> st.seq, t |-> t1, v |-> i1.v]
+             e2 == [k |-> k2, s |-> st.seq + 1, t |-> "V", v |-> i2.v] IN
+         /\ st' = OpWrite(OpWrite(st, {i1}), {i2})
+         /\ A' = AWrite(AWrite(A, {e1}), {e2})
+         /\ Log([op |-> "writes", items |-> <<i1, i2>>])
+
 Rotate ==
     /\ "rotate" \in Ops
     /\ st.mem[Latest(st).act] # {}
@@ -216,7 +231,7 @@ ReleaseSnap ==
          /\ A' = A
          /\ Log([op |-> "release", S |-> S])
 
-Next == Write \/ Batch \/ Rotate \/ Flush \/ Merge \/ Move \/ Major \/ Leveled \/ Reopen
+Next == Write \/ Batch \/ WritePair \/ Rotate \/ Flush \/ Merge \/ Move \/ Major \/ Leveled \/ Reopen
         \/ OpenSnap \/ ReleaseSnap \/ DropRange \/ Clear \/ Ingest
 
 Spec == Init /\ [][Next]_vars
